@@ -4,7 +4,7 @@
 # then runs the given checks (default: PROP) against the patched scratch worktree; finally reverts.
 WT=$1; SD=$2; PROP=$3; shift 3; CHECKS=${@:-$PROP}
 cd $WT || exit 2
-git checkout -q -- . ; git status --short | grep -v '^??' && { echo "worktree dirty"; exit 2; }
+git checkout -q -- . ; git checkout -q --detach $(git -C /repo rev-parse HEAD) 2>/dev/null; git status --short | grep -v '^??' && { echo "worktree dirty"; exit 2; }
 echo "== clean demo"; PYTHONPATH=$WT timeout 900 /venv/bin/python $SD/demo.py > /tmp/vs_clean.log 2>&1; echo "exit $?"
 git apply $SD/patch.diff || { echo "patch does not apply"; exit 2; }
 echo "== patched suite"; timeout 1800 /venv/bin/python -m pytest -q -p no:cacheprovider --timeout=900 --continue-on-collection-errors 2>&1 | tail -1
